@@ -723,7 +723,10 @@ class ListenerItem(ListenerBase):
 
         if remove:
             handler = next.unregister
-        elif self.deferred:
+        elif self.deferred and name not in object.__dict__:
+            # Only an unmaterialised container can be deferred (see the
+            # comment in '_register_simple'): the items of a container that
+            # has already been read or set are never announced again.
             return INVALID_DESTINATION
         else:
             handler = next.register
@@ -818,7 +821,10 @@ class ListenerItem(ListenerBase):
 
         if remove:
             handler = next.unregister
-        elif self.deferred:
+        elif self.deferred and name not in object.__dict__:
+            # Only an unmaterialised container can be deferred (see the
+            # comment in '_register_simple'): the items of a container that
+            # has already been read or set are never announced again.
             return INVALID_DESTINATION
         else:
             handler = next.register
